@@ -101,7 +101,7 @@ func VerifC07Untouched() {
 	deco := verifChoice("decoratedNode", c07Nodes)
 	v := verifStrN("v", 1, "49")
 	i := 0
-	which := verifChoice("update", 8)
+	which := verifChoice("update", 10)
 	var u c07Update
 	// positions: root.Content = [ka, a, kc, c, ks, s]; a.Content = [kb, b]; c.Content = [c0, c1]
 	switch which {
@@ -123,6 +123,10 @@ func VerifC07Untouched() {
 		u = c07Update{name: "replace-subtree", text: ".a = {\"z\": 7770009}", holeBefore: [][]int{{1}}, holeAfter: [][]int{{1}}}
 	case 7:
 		u = c07Update{name: "delete-key", text: "del(.s)", skipBefore: [][]int{{4}, {5}}}
+	case 8: // the result of a merge / concatenation of existing values stored under a new key: the operands stay as they were
+		u = c07Update{name: "store-merge-result", text: ".n = .a * {\"z\": 7770009, \"b\": 7770009}", skipAfter: [][]int{{6}, {7}}}
+	case 9:
+		u = c07Update{name: "store-concat-result", text: ".n = .c + [7770009]", skipAfter: [][]int{{6}, {7}}}
 	}
 	d := c07DrawDeco()
 	doc := c07Doc(x, deco, d)
